@@ -98,8 +98,40 @@ def match_finding(v, findings):
 def sig_of(v):
     return (v['property'], v['kind'], v['where'])
 
+def isolated_run(mod, plan, wall=60):
+    """guarded_run in a forked child that is killed if it does not answer (a candidate plan of the minimiser must never
+    be able to hang the check itself)"""
+    ctx = mp.get_context('fork')
+    rd, wr = ctx.Pipe(duplex=False)
+    def child():
+        try:
+            o = guarded_run(mod, plan, wall)
+            o.pop('plan', None)
+            wr.send(o)
+        except BaseException as e:
+            try: wr.send({'ok': False, 'error': 'child: %r' % (e,), 'violations': []})
+            except Exception: pass
+        finally:
+            os._exit(0)
+    p = ctx.Process(target=child)
+    p.start()
+    wr.close()
+    out = None
+    try:
+        if rd.poll(wall + 45):
+            out = rd.recv()
+    except (EOFError, OSError):
+        out = None
+    finally:
+        if p.is_alive():
+            p.kill()
+        p.join(5)
+    if out is None:
+        out = {'ok': False, 'error': 'isolated run did not answer within %ds (killed)' % (wall + 45), 'violations': []}
+    return out
+
 def reproduces(mod, plan, sig, findings):
-    o = guarded_run(mod, plan, 60)
+    o = isolated_run(mod, plan, 60)
     if not o['ok']: return None
     for v in o['violations']:
         if sig_of(v) == sig and match_finding(v, findings) is None:
@@ -185,10 +217,14 @@ def main(argv=None):
     ctx = mp.get_context('fork')
     faulthandler.dump_traceback_later(cap + 300, exit=True)
     ex = cf.ProcessPoolExecutor(max_workers=a.workers, mp_context=ctx)
+    worker_pids = set()
+    def _note_workers():
+        for pid_ in list((getattr(ex, '_processes', None) or {}).keys()): worker_pids.add(pid_)
     def _kill_workers(*_):
-        for p_ in list(getattr(ex, '_processes', {}).values()):
-            try: p_.kill()
-            except Exception: pass
+        _note_workers()
+        for pid_ in list(worker_pids):
+            try: os.kill(pid_, signal.SIGKILL)
+            except OSError: pass
     def _on_term(signum, frame):
         _kill_workers()
         os._exit(2)
@@ -203,6 +239,7 @@ def main(argv=None):
             while pending and len(live) < a.workers * 2 and not stop:
                 live.add(ex.submit(_worker, pending.popleft()))
             if not live: break
+            _note_workers()
             done, live = cf.wait(live, timeout=5, return_when=cf.FIRST_COMPLETED)
             for f in done:
                 try:
@@ -217,8 +254,10 @@ def main(argv=None):
                 _kill_workers()
                 break
     finally:
-        _kill_workers() if errors and 'workers killed' in errors[-1] else None
+        # every result we are going to use has been collected: no worker may outlive the batch (an abandoned pool
+        # leaves its workers asleep on the call queue for ever if this process is killed later)
         ex.shutdown(wait=False, cancel_futures=True)
+        _kill_workers()
     faulthandler.cancel_dump_traceback_later()
 
     wall = REAL_MONO() - t0
@@ -263,7 +302,7 @@ def main(argv=None):
         except BaseException as e:
             small = plan
             errors.append('minimiser: %r' % (e,))
-        o2 = guarded_run(mod, small, 60)
+        o2 = isolated_run(mod, small, 60)
         vv = [x for x in o2['violations'] if sig_of(x) == sig] or [v]
         path = os.path.join(VERIF, 'replays', '%s-%s-%s.json' % (pid, sig[1].replace('/', '_').replace('@', '_')[:40], plan.get('seed')))
         json.dump({'format': 1, 'property': pid, 'plan': small, 'original_seed': plan.get('seed'),
